@@ -198,7 +198,8 @@ func (r RouterJSR311) selectRoutes(dispatcher *WebService, pathRemainder string)
 		}
 		return []Route{}
 	}
-	sort.Sort(sort.Reverse(filtered))
+	// stable : routes that rank the same (same method and path, other media types) stay in registration order
+	sort.Stable(sort.Reverse(filtered))
 
 	// select other routes from candidates whoes expression matches rmatch
 	matchingRoutes := []Route{filtered.candidates[0].route}
